@@ -269,6 +269,29 @@ def translate(ctx):
     pass
 
 
+def scenario_oracle(ctx):
+    """whole scenarios against a plain reading of print / input"""
+    r = vlib.run_impl('c15_impl.py', {'scenarios': True}, timeout=600)
+    want = ''.join('Q%d>\ngot %s\n' % (i, x) for i, x in enumerate(['a', 'b', 'r', 'r']))
+    ctx.case(('scenario', 'provider-with-repeat'), nontrivial=True)
+    if r['provider-with-repeat']['raw'] != want or r['provider-with-repeat']['exc']:
+        ctx.violation('provider-with-repeat', {'observed': r['provider-with-repeat'], 'expected': want,
+                                               'why': 'set_input(make_inputs([a, b], repeat=r)) and four prompted reads: the recorded output is %r, a plain '
+                                                      'simulation (every prompt on its own line, then the line printed) gives %r'
+                                                      % (r['provider-with-repeat']['raw'], want)})
+    ctx.case(('scenario', 'many-reads'), nontrivial=True)
+    m = r['many-reads']
+    if any(m['excs']) or m['results'][1] != '45000' or m['results'][2] != repr(45000 + 2):
+        ctx.violation('reads-counted-across-executions', {'observed': m, 'why': 'three executions of one sandbox with 45000 reads each (run, call, evaluate after '
+                                                                                'queue_input("abc")): exceptions %s, results %s' % (m['excs'], m['results'])})
+    ctx.case(('scenario', 'stderr'), nontrivial=True)
+    e = r['stderr']
+    if e['raw'] != 'to out\nout again\n' or e['lines'] != ['to out', 'out again'] or e['exc']:
+        ctx.violation('standard-error-recorded-as-output', {'observed': e, 'why': 'a program printing two lines and writing two more to sys.stderr: recorded '
+                                                                                   'output %r, lines %r' % (e['raw'], e['lines'])})
+
+
 def run(ctx):
     ctx.coq_props()
     correspondence(ctx)
+    scenario_oracle(ctx)
